@@ -86,6 +86,8 @@ def check(items):
     evals = accepted = 0
     for it in items:
         ok, problem = exercise(it["text"], it.get("mode", ""), it.get("big_stack", False), it.get("no_debug_ops", False))
+        if ok:
+            proto.sample("accepted", {"text": it["text"][:300], "mode": it.get("mode", "")})
         evals += 1
         accepted += 1 if ok else 0
         if problem:
